@@ -8,8 +8,9 @@ from vlib import core
 PKG = "./lib/collection"
 OVERLAY = {"lib/collection/zz_verif_c17_test.go": "c17/cache_test.go",
            "lib/collection/zz_verif_c17conc_test.go": "c17/take_test.go"}
-W = 6
-SHARDS = 12
+W = 3            # two generator runs side by side
+WM = 3            # model checking runs beside the generator
+SHARDS = 8
 
 META = dict(
     text="Model-based replay plus trace validation. TLC model-checks the abstract cache (spec/MemCache.tla: size bound, "
@@ -17,8 +18,13 @@ META = dict(
          "95-105% window, Take fetches only on a miss and caches only on success) and enumerates behaviours "
          "(MemCacheGen.tla: Set/SetWithExpire/Get/Del/Take over 2-3 keys separated by tick runs that hit every phase "
          "class of the 300-slot wheel, expiries below/inside/beyond one revolution, limits 0/1/2, pinned jitter "
-         "classes) exhaustively to a small depth and by seeded simulation beyond; each behaviour is executed on the "
-         "real Cache built by NewCache (only the wheel's ticker is replaced) and every Get/Take result, fetch count and "
+         "classes) exhaustively to a small depth and by seeded simulation beyond. Goal-directed LRU families (limits 3, 4 "
+         "and 5 over limit+2 keys; one history per class of histories equal up to renaming keys, no idle operations, only "
+         "histories that reach an eviction) cover recency recorded by Set/Get/Take while the cache holds fewer entries "
+         "than its limit - during the first fill, after a Del, after entries went for age - followed by new keys that "
+         "overflow it. Each behaviour is executed on the "
+         "real Cache built by NewCache (only the wheel's ticker is replaced) and every Get/Take result, fetch count, the "
+         "set of keys held after every operation (so the victim of every eviction) and "
          "the entry count after every single tick are compared with the specification. Concurrent Take: recorded "
          "call/fetch/Get traces of 2-16 goroutines on one cache and on two cache instances used at the same time with the "
          "same keys are validated by TLC against spec/MemCacheTake.tla (flights, cached values and the fetch-at-most-once "
@@ -34,7 +40,10 @@ META = dict(
 
 FINISH = dict(rule="behaviours = complete TLC enumeration (BFS over the history variable) of macro-steps [pre ticks; op] up "
                    "to MaxOps operations followed by ticks past the last drop tick + one wheel revolution with probes of "
-                   "every key, plus seeded TLC simulation of longer behaviours; every tick and every operation is "
+                   "every key (LRU families with limit >= 3: complete up to renaming of keys, idle operations and "
+                   "histories without eviction left out), plus seeded TLC simulation of longer behaviours; the LRU families "
+                   "must contain recency changes below capacity of the classes fill/del/age followed by evictions (counted); "
+                   "every tick and every operation is "
                    "compared with the specification; every recorded concurrent-Take history must be accepted by the "
                    "trace specification")
 
@@ -48,21 +57,26 @@ def mc(ctx):
     K = dict(Keys='{"a","b","c"}', Limit=2, Expire=2, Expires="{}", MaxVal=1)
     cfg = core.render_cfg(spec="Spec", constants=K, invariants=invs, properties=props, constraints=["Bound"], view="core")
     ctx.tlc("MemCache", cfg, constants=K, defs=dict(Bound="T <= 2 /\\ clk <= %d" % (4 + deep)), name="MemCache-mc-lru",
-            timeout=900, workers=W)
+            timeout=900, workers=WM)
+    # limit 3 over 4 keys: recency recorded while the cache is below its limit decides a later eviction
+    K = dict(Keys='{"a","b","c","d"}', Limit=3, Expire=2, Expires="{}", MaxVal=1)
+    cfg = core.render_cfg(spec="Spec", constants=K, invariants=invs, properties=props, constraints=["Bound"], view="core")
+    ctx.tlc("MemCache", cfg, constants=K, defs=dict(Bound="T <= 0 /\\ clk <= %d" % (5 + deep)), name="MemCache-mc-lru3",
+            timeout=900, workers=WM)
     K = dict(Keys='{"a","b"}', Limit=0, Expire=2, Expires="{3}", MaxVal=2)
     cfg = core.render_cfg(spec="Spec", constants=K, invariants=invs, properties=props, constraints=["Bound"], view="core")
     ctx.tlc("MemCache", cfg, constants=K, defs=dict(Bound="T <= 6 /\\ clk <= %d" % (3 + deep)), name="MemCache-mc-exp",
-            timeout=900, workers=W)
+            timeout=900, workers=WM)
     K = dict(Keys='{"a","b"}', Limit=1, Expire=20, Expires="{}", MaxVal=1)
     cfg = core.render_cfg(spec="Spec", constants=K, invariants=invs, properties=props, constraints=["Bound"], view="core")
     ctx.tlc("MemCache", cfg, constants=K, defs=dict(Bound="T <= 22 /\\ clk <= 2"), name="MemCache-mc-window",
-            timeout=900, workers=W)
+            timeout=900, workers=WM)
 
 
 def gen(ctx, name, *, keys, limit, expire, expires="{}", maxops, pre0, pre, jit="{1,499,999}", kinds=ALL,
-        tail=301, simulate=None, depth=None):
+        tail=301, simulate=None, depth=None, order="<<>>", idle="TRUE", mustevict="FALSE"):
     K = dict(Keys=keys, Limit=limit, Expire=expire, Expires=expires, MaxVal=1000, MaxOps=maxops, Pre0=pre0, Pre=pre,
-             TailTicks=tail, Jit=jit, Kinds=kinds)
+             TailTicks=tail, Jit=jit, Kinds=kinds, Order=order, Idle=idle, MustEvict=mustevict)
     cfg = core.render_cfg(spec="GSpec", constants=K, invariants=["GenInv", "Emit"])
     r = ctx.tlc("MemCacheGen", cfg, constants=K, name=name, simulate=simulate, depth=depth, timeout=1500,
                 workers=(1 if simulate else W))
@@ -75,6 +89,14 @@ def plans(ctx):
     two = '{"a","b"}'
     three = '{"a","b","c"}'
     nolru = '{"set","get","del","takeok","takeerr"}'
+    five, six, seven = ['{"a","b","c","d","e"}', '{"a","b","c","d","e","f"}', '{"a","b","c","d","e","f","g"}']
+    # goal-directed LRU families (key spaces larger than the limit + 1): canonical order of first use, no idle operations,
+    # only behaviours that reach an eviction
+    def lru(keys, limit, maxops, kinds, **kw):
+        order = "<<%s>>" % keys.strip("{}")
+        return dict(dict(keys=keys, limit=limit, expire=20, maxops=maxops, pre0="{0}", pre="{0}", jit="{499}", kinds=kinds,
+                         tail=2, order=order, idle="FALSE", mustevict="TRUE"), **kw)
+    touch = '{"set","get","del","takeok"}'
     if ctx.quick:
         # expiry / re-set family: one and two keys, every phase class around the window of a 20 s expiry
         P.append(("e20", dict(keys=one, limit=0, expire=20, maxops=2, pre0="{0,1,149,298,299}", pre="{0,1,18,19,20,21}", kinds=nolru)))
@@ -91,8 +113,18 @@ def plans(ctx):
         # LRU and expiry together
         P.append(("lru2t", dict(keys=three, limit=2, expire=20, maxops=3, pre0="{0}", pre="{0,19}", jit="{1,999}",
                                 kinds='{"set","get","takeok"}', tail=301)))
+        # recency recorded below capacity (initial fill, after Del): limits 3 and 4
+        P.append(("lru3", lru(five, 3, 6, touch)))
+        P.append(("lru3d", lru(five, 3, 7, '{"set","get","del"}')))
+        P.append(("lru4", lru(six, 4, 6, touch)))
+        P.append(("lru4d", lru(six, 4, 8, '{"set","get","del"}')))
         S.append(("sim", dict(keys=three, limit=2, expire=20, expires="{2,310}", maxops=12, pre0="{0,1,149,298,299}",
                               pre="{0,1,2,18,19,20,21,150}", kinds=ALL, tail=301), 400, 14))
+        # ... and after entries went for age: limits 3 and 4 over 5 and 6 keys, short-lived and long-lived entries
+        S.append(("sim3", dict(keys=five, limit=3, expire=20, expires="{3}", maxops=12, pre0="{0,299}", pre="{0,1,4}",
+                               jit="{1,999}", kinds='{"set","setx","get","del","takeok"}', tail=301, idle="FALSE"), 400, 14))
+        S.append(("sim4", dict(keys=six, limit=4, expire=20, expires="{3}", maxops=14, pre0="{0,299}", pre="{0,1,4}",
+                               jit="{1,999}", kinds='{"set","setx","get","del","takeok"}', tail=301, idle="FALSE"), 400, 16))
         S.append(("sim0", dict(keys=two, limit=0, expire=20, expires="{2,310}", maxops=12, pre0="{0,1,149,298,299}",
                                pre="{0,1,2,18,19,20,21,150,294,300}", kinds=ALL, tail=301), 300, 14))
     else:
@@ -115,8 +147,16 @@ def plans(ctx):
                                kinds='{"set","get","del","takeok"}', tail=2)))
         P.append(("lru2t", dict(keys=three, limit=2, expire=20, maxops=4, pre0="{0}", pre="{0,19}", jit="{999}",
                                 kinds='{"set","get","takeok"}', tail=301)))
+        P.append(("lru3", lru(five, 3, 7, touch)))
+        P.append(("lru3a", lru(five, 3, 6, '{"set","setx","get"}', expires="{3}", pre="{0,4}")))
+        P.append(("lru4", lru(six, 4, 7, touch)))
+        P.append(("lru5", lru(seven, 5, 8, '{"set","get"}')))
         S.append(("sim", dict(keys=three, limit=2, expire=20, expires="{2,310}", maxops=20, pre0="{0,1,149,298,299}",
                               pre="{0,1,2,18,19,20,21,150}", kinds=ALL, tail=301), 6000, 22))
+        S.append(("sim3", dict(keys=five, limit=3, expire=20, expires="{3}", maxops=16, pre0="{0,299}", pre="{0,1,4}",
+                               jit="{1,999}", kinds='{"set","setx","get","del","takeok"}', tail=301, idle="FALSE"), 3000, 18))
+        S.append(("sim4", dict(keys=six, limit=4, expire=20, expires="{3}", maxops=18, pre0="{0,299}", pre="{0,1,4}",
+                               jit="{1,999}", kinds='{"set","setx","get","del","takeok"}', tail=301, idle="FALSE"), 3000, 20))
         S.append(("sim0", dict(keys=two, limit=0, expire=20, expires="{2,310}", maxops=20, pre0="{0,1,149,298,299}",
                                pre="{0,1,2,18,19,20,21,150,294,300}", kinds=ALL, tail=301), 4000, 22))
         S.append(("sim1", dict(keys=three, limit=1, expire=3, expires="{2,20}", maxops=20, pre0="{0,299}",
@@ -124,32 +164,92 @@ def plans(ctx):
     return P, S
 
 
+# vacuity guard of the LRU families: (counter of the replay driver, families summed, minimum quick, minimum thorough)
+LRU_GUARD = [("reord_fill", 200, 2000), ("evict_after_reord_fill", 200, 2000),
+             ("reord_del", 50, 500), ("evict_after_reord_del", 10, 100),
+             ("reord_age", 20, 200), ("evict_after_reord_age", 10, 100)]
+LRU_FAMILIES = ("lru3", "lru3d", "lru3a", "lru4", "lru4d", "lru5", "sim3", "sim4")
+
+
 def run(ctx):
     if os.environ.get("VERIF_C17_ONLY") == "conc":      # development aid: only the concurrent-Take part
         conc(ctx, ctx.go_build(PKG, OVERLAY, name="c17drv"))
         return
-    mc(ctx)
+    from concurrent.futures import ThreadPoolExecutor
     binp = ctx.go_build(PKG, OVERLAY, name="c17drv")
+    # model checking of the abstract cache needs nothing from the replay and the replay nothing from it: side thread; a
+    # failure there (core.Infra) surfaces at the end of run(), after the real code has been judged
+    mcx = ThreadPoolExecutor(1)
+    mc_runs = mcx.submit(mc, ctx)
     P, S = plans(ctx)
     ctx.exhaustive = True
     ctx.assumptions += [
         "tick granularity = C10 wheel contract: a delay of x seconds fires during tick T + floor(x)",
         "jitter pinned through mathx.SetVerifUnstable to R/1000 with R in {1,499,999}: factor 1.05 - R/10000",
         "excluded: expiries below 2 s (jittered delay below the wheel interval: MoveTimer fires at once; undecided by the statement)",
+        "families lru3/lru4/...: keys are interchangeable for the cache (opaque map keys), one history per class of "
+        "histories equal up to renaming the keys is generated (first uses in a fixed order)",
     ]
-    for name, kw in P:
-        cases = gen(ctx, name, **kw)
-        path, cnt = ctx.write_cases(name + ".ndjson", cases)
-        ctx.samples += core.sample_of(cases, 1)
-        ctx.replay(PKG, OVERLAY, "^TestVerifC17$", path, label=name, env=dict(VERIF_EXPIRE=kw["expire"], VERIF_LIMIT=kw["limit"]),
-                   shards=SHARDS, gomaxprocs=2, binp=binp)
-    for name, kw, num, depth in S:
-        cases = gen(ctx, name, simulate=num, depth=depth, **kw)
-        path, cnt = ctx.write_cases(name + ".ndjson", cases)
-        ctx.samples += core.sample_of(cases, 1)
-        ctx.replay(PKG, OVERLAY, "^TestVerifC17$", path, label=name, env=dict(VERIF_EXPIRE=kw["expire"], VERIF_LIMIT=kw["limit"]),
-                   shards=SHARDS, gomaxprocs=2, binp=binp)
-    conc(ctx, binp)
+    deferred = []
+
+    def stage(fn, *a, **kw):
+        """The families are independent of each other: harness trouble in one of them must not hide what another one
+        observes on the real code; it is kept and raised at the end, unless something disagreed."""
+        try:
+            return fn(*a, **kw)
+        except core.Infra as e:
+            core.log("stage: harness trouble (deferred): %s" % str(e)[:300])
+            deferred.append(e)
+        except Exception as e:                          # a bug of the check itself is harness trouble, too
+            import traceback
+            core.log("stage: unexpected exception (deferred): %s" % traceback.format_exc()[-1500:])
+            deferred.append(core.Infra("unexpected exception: %r" % (e,)))
+
+    def prepare(name, kw, num=None, depth=None):
+        cases = gen(ctx, name, **kw) if num is None else gen(ctx, name, simulate=num, depth=depth, **kw)
+        path, _ = ctx.write_cases(name + ".ndjson", cases)
+        return path, core.sample_of(cases, 1)
+
+    # concurrent Take: the recordings are made now (short), TLC validates them beside the replay of the families
+    rec = stage(conc_record, ctx, binp)
+    concx = ThreadPoolExecutor(1)
+    conc_runs = concx.submit(conc_validate, ctx, rec or [])
+    lru_cnt = {}
+
+    def replay_family(name, kw, fut):
+        path, sample = fut.result()
+        ctx.samples += sample
+        cnt, _ = ctx.replay(PKG, OVERLAY, "^TestVerifC17$", path, label=name,
+                            env=dict(VERIF_EXPIRE=kw["expire"], VERIF_LIMIT=kw["limit"]), shards=SHARDS, gomaxprocs=2, binp=binp)
+        if name in LRU_FAMILIES:
+            for k, v in cnt.items():
+                lru_cnt[k] = lru_cnt.get(k, 0) + v
+
+    # TLC generates the behaviours of the next families (two background threads) while the driver replays the previous ones
+    genx = ThreadPoolExecutor(2)
+    fams = [(name, kw, genx.submit(prepare, name, kw)) for name, kw in P]
+    fams += [(name, kw, genx.submit(prepare, name, kw, num, depth)) for name, kw, num, depth in S]
+    for name, kw, fut in fams:
+        stage(replay_family, name, kw, fut)
+    thin = stage(conc_runs.result) or []
+    stage(mc_runs.result)
+    # vacuity guard (harness matter, looked at only when the code and the specification agree everywhere): the LRU families
+    # must contain recency changes made while the cache was below its limit - during the first fill, after a Del and after
+    # an entry went for age - that were followed by an eviction
+    for k, q, t in LRU_GUARD:
+        ctx.notes["lru_" + k] = lru_cnt.get(k, 0)
+    if not ctx.disagreements and not deferred:
+        if thin:
+            raise core.Infra("two-cache Take recorder: too few rounds in which fetches of different caches overlapped on "
+                             "one key (%s)" % "; ".join(thin))
+        lthin = ["%s=%d (< %d)" % (k, lru_cnt.get(k, 0), q if ctx.quick else t) for k, q, t in LRU_GUARD
+                 if lru_cnt.get(k, 0) < (q if ctx.quick else t)]
+        if lthin:
+            raise core.Infra("LRU families are thin on recency changes below capacity: " + ", ".join(lthin))
+    if deferred and not ctx.disagreements:
+        raise deferred[0]
+    if deferred:
+        ctx.notes["harness-trouble"] = [str(e)[:300] for e in deferred]
 
 
 INVS_TAKE = ["FlightsDisjoint", "CachedOnlyOnSuccess"]
@@ -177,8 +277,8 @@ def cross_overlaps(trace_path):
     return hit + (1 if seen else 0), n
 
 
-def conc(ctx, binp):
-    """Concurrent Take callers: record call/fetch traces on the real cache, validate them with TLC."""
+def conc_record(ctx, binp):
+    """Concurrent Take callers: record call/fetch traces on the real cache."""
     rounds = 60 if ctx.quick else 600
     runs = [("gated", 4, 5, rounds)] if ctx.quick else [("gated", 1, 4, rounds), ("gated", 4, 6, rounds), ("gated", 16, 8, rounds)]
     # two cache instances alive together and asked for the same keys while their fetches are in flight
@@ -187,12 +287,20 @@ def conc(ctx, binp):
     # many staggered callers on one fresh key with an almost immediate fetch
     runs += [("stagger", 4, 64, 400), ("stagger", 16, 64, 400)] if ctx.quick else \
             [("stagger", 2, 64, 1500), ("stagger", 4, 64, 1500), ("stagger", 8, 32, 1500), ("stagger", 16, 64, 1500)]
-    thin = []
+    rec = []
     for shape, gmp, procs, n in runs:
         lab = "take-%s-g%d" % (shape, gmp)
         tr = os.path.join(ctx.build, lab + ".ndjson")
         ctx.replay(PKG, OVERLAY, "^TestVerifC17Take$", None, label=lab, gomaxprocs=gmp, binp=binp,
                    env=dict(VERIF_TRACE=tr, VERIF_ROUNDS=n, VERIF_PROCS=procs, VERIF_SHAPE=shape))
+        rec.append((shape, lab, tr))
+    return rec
+
+
+def conc_validate(ctx, rec):
+    """... and validate the recorded traces with TLC."""
+    thin = []
+    for shape, lab, tr in rec:
         ctx.validate_traces("MemCacheTake", tr, key_prefix="C17:take", invariants=INVS_TAKE, name="trace-" + lab,
                             timeout=1200)
         if shape == "twocache":
@@ -201,6 +309,11 @@ def conc(ctx, binp):
                 ctx.notes.get("take_twocache_rounds_with_cross_cache_overlap", 0) + ov
             if ov * 10 < tot:
                 thin.append("%s: %d of %d" % (lab, ov, tot))
+    return thin
+
+
+def conc(ctx, binp):
+    thin = conc_validate(ctx, conc_record(ctx, binp))
     # vacuity guard (harness matter, looked at only when the code and the specification agree everywhere)
     if thin and not ctx.disagreements:
         raise core.Infra("two-cache Take recorder: too few rounds in which fetches of different caches overlapped on "
